@@ -1,0 +1,178 @@
+//go:build verif
+
+// Contracts for the verification machinery in /verif (comment-only; never compiled into a binary).
+// Property C05: reservations are never over-allocated and only serve their owners.
+
+package reservation
+
+//@ uses pkg/scheduler/frameworkext, pkg/util/reservation, pkg/util, apis/extension
+
+// ---------- restricted reservations: a pod is let in only if it fits what is left ----------
+
+// "non-ignored": whatever isResourceIgnored reports for the configured ignore sets (the sets are not written here);
+// modelled as an uninterpreted observer of (name, set, set) because strings.Cut is outside the modelled subset.
+//@ pure func github.com/koordinator-sh/koordinator/pkg/scheduler/plugins/reservation.isResourceIgnored
+
+// pods capacity: counted only when the reservation declares "pods"
+//@ spec func podsFit(ri *frameworkext.ReservationInfo, pre corev1.ResourceList) bool = has(ri.Allocatable, corev1.ResourcePods) ==> len(ri.AssignedPods) - (has(pre, corev1.ResourcePods) ? val(pre, corev1.ResourcePods).Value() : 0) + 1 <= val(ri.Allocatable, corev1.ResourcePods).Value()
+
+// dimension n, as the property states it: the request is within Allocatable - Reserved - max0(Allocated - preemptible)
+//@ spec func dimFits(req corev1.ResourceList, ri *frameworkext.ReservationInfo, pre corev1.ResourceList, n corev1.ResourceName) bool = val(req, n) <= val(ri.Allocatable, n) - val(ri.Reserved, n) - max0(val(ri.Allocated, n) - val(pre, n))
+//@ spec func dimOK(req corev1.ResourceList, ri *frameworkext.ReservationInfo, pre corev1.ResourceList, ig sets.String, igg sets.String, n corev1.ResourceName) bool = isResourceIgnored(n, ig, igg) || !(val(req, n) > 0) || dimFits(req, ri, pre, n)
+
+
+// #iff is the property as stated: the preemptible amount (negative for what nominated pods already claim, see AddPod)
+// counts whether or not the ledger has an entry for the dimension yet; used is clamped at 0.
+//@ func fitsReservation [C05]
+//@   requires rInfo != nil
+//@   requires forall n corev1.ResourceName :: {val(podRequest, n)} val(podRequest, n) >= 0
+//@   ensures #iff: len(result) == 0 <==> (podsFit(rInfo, preemptibleInRR) && (forall j int :: 0 <= j && j < len(rInfo.ResourceNames) ==> dimOK(podRequest, rInfo, preemptibleInRR, ignoredResources, ignoredResourceGroups, rInfo.ResourceNames[j])))
+//@   modifies inferred
+//@   loop 1 invariant 0 <= $i && $i <= len(rInfo.ResourceNames) && len(insufficientResourceReasons) >= 0
+//@   loop 1 invariant len(insufficientResourceReasons) == 0 <==> (podsFit(rInfo, preemptibleInRR) && (forall j int :: 0 <= j && j < $i ==> dimOK(podRequest, rInfo, preemptibleInRR, ignoredResources, ignoredResourceGroups, rInfo.ResourceNames[j])))
+
+// what fitsReservation checks (the property formula above)
+//@ spec func fitsRestricted(req corev1.ResourceList, ri *frameworkext.ReservationInfo, pre corev1.ResourceList, ig sets.String, igg sets.String) bool = podsFit(ri, pre) && (forall j int :: 0 <= j && j < len(ri.ResourceNames) ==> dimOK(req, ri, pre, ig, igg, ri.ResourceNames[j]))
+//@ spec func isRestricted(ri *frameworkext.ReservationInfo) bool = ri.Reservation != nil && ri.Reservation.Spec.AllocatePolicy == schedulingv1alpha1.ReservationAllocatePolicyRestricted
+
+// "fits" is (nil, nil). For a Restricted reservation that verdict is only given when the pod fits what is left of the reservation.
+//@ func fitsNodeAndReservation [C05]
+//@   requires rInfo != nil
+//@   requires forall n corev1.ResourceName :: {val(podRequests, n)} val(podRequests, n) >= 0
+//@   ensures #restricted: isRestricted(rInfo) && len(result0) == 0 && len(result1) == 0 ==> fitsRestricted(podRequests, rInfo, preemptibleInRR, ignoredResources, ignoredResourceGroups)
+//@   ensures #restricted-iff: isRestricted(rInfo) ==> (len(result1) == 0 <==> fitsRestricted(podRequests, rInfo, preemptibleInRR, ignoredResources, ignoredResourceGroups))
+//@   ensures #policy: rInfo.Reservation != nil && rInfo.Reservation.Spec.AllocatePolicy != schedulingv1alpha1.ReservationAllocatePolicyRestricted ==> len(result1) == 0
+//@   modifies inferred
+
+// ---------- allocate-once gate on the nominate path ----------
+
+//@ spec func allocOnce(ri *frameworkext.ReservationInfo) bool = ri.Reservation == nil || ri.Reservation.Spec.AllocateOnce == nil || deref(ri.Reservation.Spec.AllocateOnce)
+
+// An allocate-once reservation that already has an assigned pod is refused (Unschedulable) before anything else is looked at,
+// so RunNominateReservationFilterPlugins never lets it into the candidate list of NominateReservation.
+//@ func (*Plugin).FilterNominateReservation [C05]
+//@   requires pl != nil && rInfo != nil
+//@   ensures #once: old(allocOnce(rInfo) && len(rInfo.AssignedPods) > 0) ==> result != nil && result.code == fwktype.Unschedulable && calls("filterWithReservations") == 0 && calls("filterWithPreAllocatablePods") == 0
+
+// ---------- per-node reservation indexes of the cache ----------
+// I(cache) = idxShape (maps exist; the three indexes and all their inner sets are distinct map objects, inner sets non-nil)
+//          ∧ refsLive (every uid listed in reservationsOnNode / matchableOnNode / allocatedOnNode is a key of reservationInfos)
+//          ∧ infosOK  (cached entries are non-nil and no entry is cached under two uids)
+//          ∧ listed   (every cached reservation placed on a node is listed in reservationsOnNode[node]).
+
+//@ spec func mapsOK(c *reservationCache) bool = c != nil && c.reservationInfos != nil && c.reservationsOnNode != nil && c.matchableOnNode != nil && c.allocatedOnNode != nil && c.reservationsOnNode != c.matchableOnNode && c.reservationsOnNode != c.allocatedOnNode && c.matchableOnNode != c.allocatedOnNode && !has(c.reservationsOnNode, "") && !has(c.matchableOnNode, "") && !has(c.allocatedOnNode, "")
+//@ spec func innerOK(c *reservationCache) bool = forall n string :: (has(c.reservationsOnNode, n) ==> c.reservationsOnNode[n] != nil) && (has(c.matchableOnNode, n) ==> c.matchableOnNode[n] != nil) && (has(c.allocatedOnNode, n) ==> c.allocatedOnNode[n] != nil)
+//@ spec func innerDistinct(c *reservationCache) bool = forall n1 string, n2 string :: (has(c.reservationsOnNode, n1) && has(c.reservationsOnNode, n2) && n1 != n2 ==> c.reservationsOnNode[n1] != c.reservationsOnNode[n2]) && (has(c.matchableOnNode, n1) && has(c.matchableOnNode, n2) && n1 != n2 ==> c.matchableOnNode[n1] != c.matchableOnNode[n2]) && (has(c.allocatedOnNode, n1) && has(c.allocatedOnNode, n2) && n1 != n2 ==> c.allocatedOnNode[n1] != c.allocatedOnNode[n2]) && (has(c.reservationsOnNode, n1) && has(c.matchableOnNode, n2) ==> c.reservationsOnNode[n1] != c.matchableOnNode[n2]) && (has(c.reservationsOnNode, n1) && has(c.allocatedOnNode, n2) ==> c.reservationsOnNode[n1] != c.allocatedOnNode[n2]) && (has(c.matchableOnNode, n1) && has(c.allocatedOnNode, n2) ==> c.matchableOnNode[n1] != c.allocatedOnNode[n2])
+//@ spec func idxShape(c *reservationCache) bool = mapsOK(c) && innerOK(c) && innerDistinct(c)
+
+//@ spec func inR(c *reservationCache, n string, u types.UID) bool = has(c.reservationsOnNode, n) && has(c.reservationsOnNode[n], u)
+//@ spec func inM(c *reservationCache, n string, u types.UID) bool = has(c.matchableOnNode, n) && has(c.matchableOnNode[n], u)
+//@ spec func inA(c *reservationCache, n string, u types.UID) bool = has(c.allocatedOnNode, n) && has(c.allocatedOnNode[n], u)
+
+//@ spec func refsLive(c *reservationCache) bool = forall n string, u types.UID :: (inR(c, n, u) ==> has(c.reservationInfos, u)) && (inM(c, n, u) ==> has(c.reservationInfos, u)) && (inA(c, n, u) ==> has(c.reservationInfos, u))
+
+//@ func (*reservationCache).updateReservationsOnNode [C05]
+//@   requires idxShape(cache)
+//@   ensures #listed: nodeName != "" ==> inR(cache, nodeName, uid)
+//@   ensures #others: forall n string, u types.UID :: n != nodeName || u != uid ==> inR(cache, n, u) == old(inR(cache, n, u))
+//@   ensures #shape: idxShape(cache)
+//@   modifies contents(cache.reservationsOnNode), contents(cache.reservationsOnNode[nodeName])
+
+//@ func (*reservationCache).deleteReservationOnNode [C05]
+//@   requires idxShape(cache)
+//@   ensures #gone: nodeName != "" ==> !inR(cache, nodeName, uid)
+//@   ensures #others: forall n string, u types.UID :: n != nodeName || u != uid || nodeName == "" ==> inR(cache, n, u) == old(inR(cache, n, u))
+//@   ensures #shape: idxShape(cache)
+//@   modifies contents(cache.reservationsOnNode), contents(cache.reservationsOnNode[nodeName])
+
+// the node a cached reservation is placed on ("" = not placed); same as (*ReservationInfo).GetNodeName
+//@ spec func nodeOf(ri *frameworkext.ReservationInfo) string = ri.Reservation != nil ? ri.Reservation.Status.NodeName : (ri.Pod != nil ? ri.Pod.Spec.NodeName : "")
+//@ spec func infosOK(c *reservationCache) bool = (forall u types.UID :: has(c.reservationInfos, u) ==> c.reservationInfos[u] != nil) && (forall u1 types.UID, u2 types.UID :: has(c.reservationInfos, u1) && has(c.reservationInfos, u2) && u1 != u2 ==> c.reservationInfos[u1] != c.reservationInfos[u2])
+//@ spec func listed(c *reservationCache) bool = forall u types.UID :: has(c.reservationInfos, u) && nodeOf(c.reservationInfos[u]) != "" ==> inR(c, nodeOf(c.reservationInfos[u]), u)
+//@ spec func cacheInv(c *reservationCache) bool = idxShape(c) && refsLive(c) && infosOK(c) && listed(c)
+// the uid is indexed under node n at most
+//@ spec func onlyUnder(c *reservationCache, u types.UID, node string) bool = forall n string :: n != node ==> !inR(c, n, u) && !inM(c, n, u) && !inA(c, n, u)
+
+// Scope: the optional label-selector index (ReservationSelectorIndexArgs, disabled by default) is off.
+// Environment precondition: the delete event carries the node name the object was indexed under.
+//@ func (*reservationCache).DeleteReservation [C05]
+//@   requires cacheInv(cache) && r != nil && !cache.indexEnabled
+//@   requires onlyUnder(cache, r.ObjectMeta.UID, r.Status.NodeName)
+//@   ensures #inv: cacheInv(cache)
+//@   ensures #gone: !has(cache.reservationInfos, r.ObjectMeta.UID) && (forall n string :: !inR(cache, n, r.ObjectMeta.UID) && !inM(cache, n, r.ObjectMeta.UID) && !inA(cache, n, r.ObjectMeta.UID))
+//@   ensures #others: forall u types.UID :: u != r.ObjectMeta.UID ==> has(cache.reservationInfos, u) == old(has(cache.reservationInfos, u)) && cache.reservationInfos[u] == old(cache.reservationInfos[u]) && (forall n string :: inR(cache, n, u) == old(inR(cache, n, u)) && inM(cache, n, u) == old(inM(cache, n, u)) && inA(cache, n, u) == old(inA(cache, n, u)))
+//@   ensures #result: result == old(cache.reservationInfos[r.ObjectMeta.UID])
+//@   modifies contents(cache.reservationInfos), contents(cache.reservationsOnNode), contents(cache.matchableOnNode), contents(cache.allocatedOnNode), contents(cache.reservationsOnNode[r.Status.NodeName]), contents(cache.matchableOnNode[r.Status.NodeName]), contents(cache.allocatedOnNode[r.Status.NodeName])
+
+// Environment precondition: an update event carries the node name the object is already indexed under (status.nodeName is
+// written once, when the reservation is scheduled), i.e. the uid is indexed under newR.Status.NodeName at most.
+//@ func (*reservationCache).updateReservation [C05]
+//@   requires cacheInv(cache) && newR != nil && !cache.indexEnabled
+//@   requires onlyUnder(cache, newR.ObjectMeta.UID, newR.Status.NodeName)
+//@   ensures #inv: cacheInv(cache)
+//@   ensures #cached: has(cache.reservationInfos, newR.ObjectMeta.UID) && cache.reservationInfos[newR.ObjectMeta.UID].Reservation == newR
+//@   ensures #listed: newR.Status.NodeName != "" ==> inR(cache, newR.Status.NodeName, newR.ObjectMeta.UID)
+//@   ensures #others: forall u types.UID :: u != newR.ObjectMeta.UID ==> has(cache.reservationInfos, u) == old(has(cache.reservationInfos, u)) && cache.reservationInfos[u] == old(cache.reservationInfos[u]) && (forall n string :: inR(cache, n, u) == old(inR(cache, n, u)) && inM(cache, n, u) == old(inM(cache, n, u)) && inA(cache, n, u) == old(inA(cache, n, u)))
+
+// Environment precondition: the event does not move the reservation (status.nodeName of a cached reservation never changes),
+// so the entry is already listed under newR.Status.NodeName by I(cache); this function does not re-list it.
+//@ func (*reservationCache).updateReservationIfExists [C05]
+//@   requires cacheInv(cache) && newR != nil && !cache.indexEnabled
+//@   requires onlyUnder(cache, newR.ObjectMeta.UID, newR.Status.NodeName)
+//@   requires has(cache.reservationInfos, newR.ObjectMeta.UID) ==> nodeOf(cache.reservationInfos[newR.ObjectMeta.UID]) == newR.Status.NodeName
+//@   ensures #inv: cacheInv(cache)
+//@   ensures #absent: !old(has(cache.reservationInfos, newR.ObjectMeta.UID)) ==> (forall n string, u types.UID :: inR(cache, n, u) == old(inR(cache, n, u)) && inM(cache, n, u) == old(inM(cache, n, u)) && inA(cache, n, u) == old(inA(cache, n, u)))
+//@   ensures #keys: forall u types.UID :: has(cache.reservationInfos, u) == old(has(cache.reservationInfos, u)) && cache.reservationInfos[u] == old(cache.reservationInfos[u])
+//@   ensures #others: forall u types.UID :: u != newR.ObjectMeta.UID ==> (forall n string :: inR(cache, n, u) == old(inR(cache, n, u)) && inM(cache, n, u) == old(inM(cache, n, u)) && inA(cache, n, u) == old(inA(cache, n, u)))
+
+// ---------- pods assigned to cached reservations ----------
+// The ledger itself (Allocated = sum over assigned pods) is carried per operation by AddAssignedPod / RemoveAssignedPod
+// (pkg/scheduler/frameworkext); a closed-form sum over the pod slice is not expressible in the contract language, so
+// addPods / deletePods state: every pod of the slice is recorded / gone, the ledger stays well-formed, I(cache) holds.
+
+//@ spec func entryOK(c *reservationCache, u types.UID) bool = has(c.reservationInfos, u) ==> g_ledgerOK(c.reservationInfos[u])
+
+//@ func (*reservationCache).addPods [C05]
+//@   requires cacheInv(cache) && entryOK(cache, reservationUID)
+//@   requires forall j int :: 0 <= j && j < len(pods) ==> pods[j] != nil
+//@   ensures #inv: cacheInv(cache) && entryOK(cache, reservationUID)
+//@   ensures #missing: !old(has(cache.reservationInfos, reservationUID)) ==> result != nil
+//@   ensures #recorded: result == nil ==> (forall j int :: 0 <= j && j < len(pods) ==> has(cache.reservationInfos[reservationUID].AssignedPods, pods[j].ObjectMeta.UID))
+//@   ensures #kept: forall u types.UID :: old(has(cache.reservationInfos[reservationUID].AssignedPods, u)) ==> has(cache.reservationInfos[reservationUID].AssignedPods, u)
+//@   ensures #index: forall n string, u types.UID :: inR(cache, n, u) == old(inR(cache, n, u)) && inM(cache, n, u) == old(inM(cache, n, u)) && (inA(cache, n, u) != old(inA(cache, n, u)) ==> u == reservationUID && n == nodeOf(cache.reservationInfos[reservationUID]) && n != "" && result == nil)
+//@   ensures #keys: forall u types.UID :: has(cache.reservationInfos, u) == old(has(cache.reservationInfos, u)) && cache.reservationInfos[u] == old(cache.reservationInfos[u])
+//@   loop 1 invariant 0 <= $i && $i <= len(pods)
+//@   loop 1 invariant g_ledgerOK(rInfo)
+//@   loop 1 invariant forall j int :: 0 <= j && j < $i ==> has(rInfo.AssignedPods, pods[j].ObjectMeta.UID)
+//@   loop 1 invariant forall u types.UID :: old(has(cache.reservationInfos[reservationUID].AssignedPods, u)) ==> has(rInfo.AssignedPods, u)
+
+//@ func (*reservationCache).deletePods [C05]
+//@   requires cacheInv(cache) && entryOK(cache, reservationUID)
+//@   requires forall j int :: 0 <= j && j < len(pods) ==> pods[j] != nil
+//@   ensures #inv: cacheInv(cache) && entryOK(cache, reservationUID)
+//@   ensures #gone: has(cache.reservationInfos, reservationUID) ==> (forall j int :: 0 <= j && j < len(pods) ==> !has(cache.reservationInfos[reservationUID].AssignedPods, pods[j].ObjectMeta.UID))
+//@   ensures #subset: forall u types.UID :: has(cache.reservationInfos[reservationUID].AssignedPods, u) ==> old(has(cache.reservationInfos[reservationUID].AssignedPods, u))
+//@   ensures #index: forall n string, u types.UID :: inR(cache, n, u) == old(inR(cache, n, u)) && inM(cache, n, u) == old(inM(cache, n, u)) && (inA(cache, n, u) != old(inA(cache, n, u)) ==> u == reservationUID && len(cache.reservationInfos[reservationUID].AssignedPods) == 0)
+//@   ensures #keys: forall u types.UID :: has(cache.reservationInfos, u) == old(has(cache.reservationInfos, u)) && cache.reservationInfos[u] == old(cache.reservationInfos[u])
+//@   loop 1 invariant 0 <= $i && $i <= len(pods)
+//@   loop 1 invariant g_ledgerOK(rInfo)
+//@   loop 1 invariant forall j int :: 0 <= j && j < $i ==> !has(rInfo.AssignedPods, pods[j].ObjectMeta.UID)
+//@   loop 1 invariant forall u types.UID :: has(rInfo.AssignedPods, u) ==> old(has(cache.reservationInfos[reservationUID].AssignedPods, u))
+
+// updatePod moves a pod between reservations (either side may be absent)
+//@ func (*reservationCache).updatePod [C05]
+//@   requires cacheInv(cache) && entryOK(cache, oldReservationUID) && entryOK(cache, newReservationUID)
+//@   requires has(cache.reservationInfos, oldReservationUID) && has(cache.reservationInfos, newReservationUID) && oldReservationUID != newReservationUID ==> cache.reservationInfos[oldReservationUID].AssignedPods != cache.reservationInfos[newReservationUID].AssignedPods  // every entry owns its map (NewReservationInfo / Clone allocate one each)
+//@   ensures #inv: cacheInv(cache) && entryOK(cache, oldReservationUID) && entryOK(cache, newReservationUID)
+//@   ensures #removed: oldPod != nil && has(cache.reservationInfos, oldReservationUID) && (newPod == nil || !has(cache.reservationInfos, newReservationUID) || newReservationUID != oldReservationUID || newPod.ObjectMeta.UID != oldPod.ObjectMeta.UID) ==> !has(cache.reservationInfos[oldReservationUID].AssignedPods, oldPod.ObjectMeta.UID)
+//@   ensures #added: newPod != nil && has(cache.reservationInfos, newReservationUID) ==> has(cache.reservationInfos[newReservationUID].AssignedPods, newPod.ObjectMeta.UID)
+//@   ensures #index: forall n string, u types.UID :: inR(cache, n, u) == old(inR(cache, n, u)) && inM(cache, n, u) == old(inM(cache, n, u)) && (inA(cache, n, u) != old(inA(cache, n, u)) ==> u == oldReservationUID || u == newReservationUID)
+//@   ensures #keys: forall u types.UID :: has(cache.reservationInfos, u) == old(has(cache.reservationInfos, u)) && cache.reservationInfos[u] == old(cache.reservationInfos[u])
+
+// ---------- owner gate when the per-cycle candidate lists are built ----------
+// A reservation is only reported "matched" for a pod that did not opt out of reservations when the pod satisfies the
+// reservation's owner specification (g_someOwnerMatches, pkg/scheduler/frameworkext) and the specification parsed.
+//@ func checkReservationMatchedOrIgnored [C05]
+//@   requires pod != nil && rInfo != nil && diagnosisState != nil
+//@   ensures #owners: result && !isReservationIgnored ==> old(rInfo.ParseError == nil && g_someOwnerMatches(rInfo, pod))
+//@   ensures #ignored: isReservationIgnored ==> result
